@@ -354,7 +354,30 @@ def _inline_site(prog: Program, f: FunctionInfo, body, caller: FunctionInfo, cal
             names[p] = new
             a_ = ast.Assign(targets=[ast.Name(id=new, ctx=ast.Store())], value=copy.deepcopy(arg), lineno=stmt.lineno, col_offset=stmt.col_offset)
             pre.append(a_)
+    # returned locals written straight into the caller's targets: ``a, b = helper()`` with ``return (u, v)`` and u, v
+    # plain locals of the helper (not parameters) -> u, v are renamed to a, b, the return becomes an identity assignment
+    direct: Dict[str, str] = {}
+    if kind == "assign" and len(stmt.targets) == 1:
+        tgt = stmt.targets[0]
+        tnames = [e.id if isinstance(e, ast.Name) else None for e in tgt.elts] if isinstance(tgt, ast.Tuple) else ([tgt.id] if isinstance(tgt, ast.Name) else [None])
+        rets = [n for s_ in body for n in ast.walk(s_) if isinstance(n, ast.Return)]
+        if rets and None not in tnames and len(set(tnames)) == len(tnames):
+            rows = []
+            for r in rets:
+                v = r.value
+                vn = [e.id if isinstance(e, ast.Name) else None for e in v.elts] if isinstance(v, ast.Tuple) else ([v.id] if isinstance(v, ast.Name) else [None])
+                rows.append(vn)
+            callee_names_all = _all_names(f.node)
+            if all(len(r) == len(tnames) and None not in r for r in rows) and all(r == rows[0] for r in rows) and len(set(rows[0])) == len(rows[0]):
+                okd = all(v_ not in params and v_ in callee_locals for v_ in rows[0]) and not (set(tnames) & (callee_names_all - set(rows[0])))
+                # the caller's targets must not be passed in as arguments (the helper would then read them)
+                arg_names = {n.id for a_ in list(call.args) + [k_.value for k_ in call.keywords] for n in ast.walk(a_) if isinstance(n, ast.Name)}
+                if okd and not (set(tnames) & arg_names):
+                    direct = dict(zip(rows[0], tnames))
     for nm in sorted(callee_locals - set(params)):
+        if nm in direct:
+            names[nm] = direct[nm]
+            continue
         names[nm] = fresh(nm)
     new_body = [_Renamer(names, subst).visit(copy.deepcopy(s)) for s in body]
     tmp = None
@@ -362,6 +385,9 @@ def _inline_site(prog: Program, f: FunctionInfo, body, caller: FunctionInfo, cal
         def on_return(v):
             if isinstance(v, ast.Name) and len(stmt.targets) == 1 and isinstance(stmt.targets[0], ast.Name) and stmt.targets[0].id == v.id:
                 return []  # x = x
+            if isinstance(v, ast.Tuple) and len(stmt.targets) == 1 and isinstance(stmt.targets[0], ast.Tuple) and len(v.elts) == len(stmt.targets[0].elts) \
+                    and all(isinstance(a_, ast.Name) and isinstance(b_, ast.Name) and a_.id == b_.id for a_, b_ in zip(v.elts, stmt.targets[0].elts)):
+                return []  # a, b = (a, b)
             a_ = ast.Assign(targets=[copy.deepcopy(t) for t in stmt.targets], value=v if v is not None else ast.Constant(value=None))
             ast.copy_location(a_, stmt)
             return [a_]
